@@ -9,7 +9,7 @@ for d in seeded/*/; do
   [ -f $d/patch.diff ] || continue
   pids=$(python3 -c "import json; m=json.load(open('$d/meta.json')); print(' '.join([m['property']] + [p for p in m.get('also_breaks', []) if p != m['property']]))")
   [ -z "$(git -C /repo status --porcelain)" ] || { echo "/repo not clean"; exit 2; }
-  git -C /repo apply $d/patch.diff || { echo "| $id | - | patch does not apply | | | |" >> $out; continue; }
+  git -C /repo apply /verif/$d/patch.diff || { echo "| $id | - | patch does not apply | | | |" >> $out; continue; }
   for p in $pids; do
     ./check $p --tier quick > /tmp/matrix_${id}_$p.log 2>&1; rc=$?
     v=$(grep -c '^VIOLATION.*:: obligation' /tmp/matrix_${id}_$p.log)
